@@ -50,3 +50,35 @@ func (c linearRGB) toRGBA(space string, alpha float32) color.RGBA {
 	}
 	return displayp3.Color{RGB: lr}.ToRGBA(alpha)
 }
+
+// plainColor is a colour type of the harness's own: nothing can type-switch on it.
+type plainColor struct{ r, g, b, a uint32 }
+
+func (c plainColor) RGBA() (uint32, uint32, uint32, uint32) { return c.r, c.g, c.b, c.a }
+
+// colourZoo returns colours of every dynamic type the standard library has (and one it has
+// not), derived from four seed bytes; opaque ones and translucent ones.
+func colourZoo(r, g, b, a uint8) []color.Color {
+	r16, g16, b16, a16 := uint16(r)*257^uint16(b), uint16(g)*257^uint16(r), uint16(b)*257^uint16(g), uint16(a)*257
+	min16 := func(x, y uint16) uint16 {
+		if x < y {
+			return x
+		}
+		return y
+	}
+	min8 := func(x, y uint8) uint8 {
+		if x < y {
+			return x
+		}
+		return y
+	}
+	return []color.Color{
+		color.NRGBA{r, g, b, 255}, color.RGBA{r, g, b, 255}, color.NRGBA64{r16, g16, b16, 65535}, color.RGBA64{r16, g16, b16, 65535},
+		color.Gray{g}, color.Gray16{g16}, color.YCbCr{r, g, b}, color.CMYK{r, g, b, a}, color.Alpha{255}, color.Alpha16{65535},
+		plainColor{uint32(r16), uint32(g16), uint32(b16), 65535}, plainColor{uint32(r) * 257, uint32(r) * 257, uint32(r) * 257, 65535},
+		// translucent
+		color.NRGBA{r, g, b, a}, color.RGBA{min8(r, a), min8(g, a), min8(b, a), a}, color.NRGBA64{r16, g16, b16, a16},
+		color.RGBA64{min16(r16, a16), min16(g16, a16), min16(b16, a16), a16}, color.NYCbCrA{color.YCbCr{r, g, b}, a}, color.Alpha{a}, color.Alpha16{a16},
+		plainColor{uint32(min16(r16, a16)), uint32(min16(g16, a16)), uint32(min16(b16, a16)), uint32(a16)},
+	}
+}
